@@ -183,7 +183,7 @@ func cmdCheck(args []string) int {
 		*tier = "quick"
 	}
 	if *timeout == 0 {
-		*timeout = 20
+		*timeout = 40
 		if *tier == "thorough" {
 			*timeout = 120
 		}
@@ -215,6 +215,14 @@ func cmdCheck(args []string) int {
 		fuc = append(fuc, key)
 		for _, m := range modesFor(ct) {
 			if err := e.verifyFunction(fn, ct, m); err != nil {
+				inconclusive = append(inconclusive, "outside-reach "+err.Error())
+			}
+		}
+	}
+	// lemmas: those tagged with the property and those used by its contracts
+	for _, lm := range l.cs.Lemmas {
+		if contains(lm.Props, prop) || e.lemmasUsed[lm.Name] {
+			if err := e.proveLemma(lm); err != nil {
 				inconclusive = append(inconclusive, "outside-reach "+err.Error())
 			}
 		}
